@@ -287,6 +287,10 @@ def do_case(case):
         forms.append([fn(r, g, b)])
         if pfx == '':
             forms.append(AnsiFormat.rgb(r, g, b))
+        from ..env import lib_format
+        comp = {'': 'FOREGROUND', 'fg_': 'FOREGROUND', 'bg_': 'BACKGROUND', 'ul_': 'UNDERLINE', 'dul_': 'DOUBLE_UNDERLINE'}[pfx]
+        forms.append(AnsiFormat.rgb(r, g, b, getattr(lib_format.ColorComponentType, comp)))
+        forms.append(AnsiFormat.rgb(r, g, b, component=getattr(lib_format.ColourComponentType, comp)))
         return check_class(canon, forms, '%srgb(%d,%d,%d)' % (pfx, r, g, b), hows=('ctor', 'str')), len(forms) * 2
     if k == 'rgb1':
         pfx, v = case['pfx'], case['v']
@@ -297,6 +301,9 @@ def do_case(case):
                 forms.append('%srgb(%s%s%s)' % (pfx, o, f, c))
         fn = getattr(AnsiFormat, (pfx or 'fg_') + 'rgb')
         forms.append(fn(v))
+        from ..env import lib_format
+        comp = {'': 'FOREGROUND', 'fg_': 'FOREGROUND', 'bg_': 'BACKGROUND', 'ul_': 'UNDERLINE', 'dul_': 'DOUBLE_UNDERLINE'}[pfx]
+        forms.append(AnsiFormat.rgb(v, component=getattr(lib_format.ColorComponentType, comp)))
         return check_class(canon, forms, '%srgb(%#x)' % (pfx, v), hows=('ctor',)), len(forms)
     if k == 'c256':
         pfx, n = case['pfx'], case['n']
@@ -309,6 +316,14 @@ def do_case(case):
             forms.append(getattr(AnsiFormat, (pfx or 'fg_') + word)(n))
         if pfx == '':
             forms.append(AnsiFormat.color256(n))
+        # the generic helpers with an explicit component (positional and by keyword), both spellings
+        from ..env import lib_format
+        comp = {'': 'FOREGROUND', 'fg_': 'FOREGROUND', 'bg_': 'BACKGROUND', 'ul_': 'UNDERLINE', 'dul_': 'DOUBLE_UNDERLINE'}[pfx]
+        for enum_name in ('ColorComponentType', 'ColourComponentType'):
+            c = getattr(getattr(lib_format, enum_name), comp)
+            for word in ('color256', 'colour256'):
+                forms.append(getattr(AnsiFormat, word)(n, c))
+                forms.append(getattr(AnsiFormat, word)(n, component=c))
         return check_class(canon, forms, '%scolor256(%d)' % (pfx, n), hows=('ctor',)), len(forms)
     if k == 'helper':
         # helper functions at out-of-range integers: clamped
